@@ -15,5 +15,6 @@ if [ -z "$notest" ]; then
   (cd "$wt" && PYTHONPATH="$wt" timeout 1500 /venv/bin/python -m pytest -q -p no:cacheprovider -n 10 --timeout=900 2>&1 | grep -E "^(FAILED|ERROR)|passed|failed" | tail -8)
 fi
 echo "== ./check $prop on changed tree"
-cd /verif && VERIF_REPO="$wt" ./check "$prop" --tier quick 2>&1 | grep -E "VIOLATION|KNOWN-FINDING|coq ok|Traceback" | head -8
+cd /verif && VERIF_REPO="$wt" ./check "$prop" --tier quick > /tmp/seed_check_$$.log 2>&1
 echo "check exit: $?"
+grep -E "VIOLATION|KNOWN-FINDING|coq ok|Traceback" /tmp/seed_check_$$.log | head -8; rm -f /tmp/seed_check_$$.log
